@@ -67,6 +67,8 @@ pub tracked struct Fx<T> {
     pub ghost held: bool,
     /// signals seen in the wait list during the current critical section
     pub ghost listed: Set<SignalTerminator<T>>,
+    /// waiters this call registered, with the role they were registered in
+    pub ghost roles: Map<SignalTerminator<T>, Role>,
     /// number of times this call dropped / moved-out the future's local value
     pub ghost local_drops: int,
     pub ghost local_reads: int,
@@ -84,6 +86,7 @@ impl<T> Fx<T> {
         &&& self.listed == Set::<SignalTerminator<T>>::empty()
         &&& self.local_drops == 0
         &&& self.local_reads == 0
+        &&& self.roles == Map::<SignalTerminator<T>, Role>::empty()
     }
     pub open spec fn same_effects_but_local(self, o: Fx<T>) -> bool {
         &&& self.popped == o.popped
@@ -91,6 +94,16 @@ impl<T> Fx<T> {
         &&& self.sent == o.sent
         &&& self.taken == o.taken
         &&& self.terminated == o.terminated
+        &&& self.roles == o.roles
+    }
+    pub open spec fn same_effects_but_roles(self, o: Fx<T>) -> bool {
+        &&& self.popped == o.popped
+        &&& self.used == o.used
+        &&& self.sent == o.sent
+        &&& self.taken == o.taken
+        &&& self.terminated == o.terminated
+        &&& self.local_drops == o.local_drops
+        &&& self.local_reads == o.local_reads
     }
     /// everything except the critical-section list is unchanged
     pub open spec fn same_effects(self, o: Fx<T>) -> bool {
@@ -101,6 +114,7 @@ impl<T> Fx<T> {
         &&& self.terminated == o.terminated
         &&& self.local_drops == o.local_drops
         &&& self.local_reads == o.local_reads
+        &&& self.roles == o.roles
     }
 }
 
@@ -192,6 +206,8 @@ pub uninterp spec fn received<T>(t: SignalTerminator<T>) -> T;
 pub uninterp spec fn ptr_val<T>(p: *mut T) -> T;
 /// prophecy: the slot behind `p` gets written by a peer
 pub uninterp spec fn ptr_filled<T>(p: *mut T) -> bool;
+/// what the peer writes into the slot behind `p`
+pub uninterp spec fn ptr_fill_val<T>(p: *mut T) -> T;
 /// the slot `p` was obtained from a manually managed (MaybeUninit) location
 pub uninterp spec fn ptr_manual<T>(p: *mut T) -> bool;
 
@@ -209,7 +225,8 @@ impl<T> KanalPtr<T> {
     #[verifier::external_body]
     pub fn new_from(addr: *mut T) -> (r: Self)
         requires /*@tag:O-slot-manual C05 C13*/ ptr_manual(addr),
-        ensures r.slot() == addr, r.lent() == ptr_val(addr), r.has_value()
+        // a slot lent for reading is never written by the peer (R2)
+        ensures r.slot() == addr, r.lent() == ptr_val(addr), r.has_value(), !ptr_filled(addr)
     { unimplemented!() }
     #[verifier::external_body]
     pub fn new_write_address_ptr(addr: *mut T) -> (r: Self) ensures r.slot() == addr, !r.has_value() { unimplemented!() }
@@ -235,10 +252,13 @@ impl<T> Signal<T> {
     pub uninterp spec fn fresh(&self) -> bool;
     pub uninterp spec fn wakes(&self, w: Waker) -> bool;
     pub uninterp spec fn is_sync(&self) -> bool;
+    /// a sender's signal: it carries (small T) or points to (large T) the value being sent
+    pub uninterp spec fn owns_payload(&self) -> bool;
 
     #[verifier::external_body]
     pub fn new_sync(ptr: KanalPtr<T>) -> (r: Self)
-        ensures r.slot() == ptr.slot(), r.fresh(), r.is_sync(), ptr.has_value() ==> payload(r.term()) == ptr.lent()
+        ensures r.slot() == ptr.slot(), r.fresh(), r.is_sync(), ptr.has_value() ==> payload(r.term()) == ptr.lent(),
+            r.owns_payload() == ptr.has_value()
     { unimplemented!() }
     #[verifier::external_body]
     pub fn get_terminator(&self) -> (r: SignalTerminator<T>)
@@ -246,16 +266,18 @@ impl<T> Signal<T> {
         ensures r == self.term() { unimplemented!() }
     /// T5
     #[verifier::external_body]
-    pub fn wait(&self) -> (b: bool)
+    pub fn wait(&self, Tracked(fx): Tracked<&mut Fx<T>>) -> (b: bool)
         requires may_wait_peer(), self.is_sync(),
-        ensures b == self.delivered(),
-            b && big::<T>() ==> ptr_filled(self.slot()) && ptr_val(self.slot()) == received(self.term()),
+            /*@tag:O-no-wait-under-lock C03 C14 C13*/ !old(fx).held,
+        ensures *final(fx) == *old(fx), b == self.delivered(),
+            b && big::<T>() ==> ptr_filled(self.slot()) && ptr_fill_val(self.slot()) == received(self.term()),
     { unimplemented!() }
     #[verifier::external_body]
-    pub fn wait_timeout(&self, until: Instant) -> (b: bool)
+    pub fn wait_timeout(&self, until: Instant, Tracked(fx): Tracked<&mut Fx<T>>) -> (b: bool)
         requires may_wait_peer(),
-        ensures b ==> self.delivered(),
-            b && big::<T>() ==> ptr_filled(self.slot()) && ptr_val(self.slot()) == received(self.term()),
+            /*@tag:O-no-wait-under-lock C03 C14 C13*/ !old(fx).held,
+        ensures *final(fx) == *old(fx), b ==> self.delivered(),
+            b && big::<T>() ==> ptr_filled(self.slot()) && ptr_fill_val(self.slot()) == received(self.term()),
             !b ==> reached(until) || self.seen_terminated(),
     { unimplemented!() }
     #[verifier::external_body]
@@ -263,21 +285,22 @@ impl<T> Signal<T> {
         ensures b ==> !self.delivered(), self.seen_terminated() ==> b, *final(fx) == *old(fx) { unimplemented!() }
     // ---- async flavour
     #[verifier::external_body]
-    pub fn new_async() -> (r: Self) ensures r.fresh(), !r.is_sync() { unimplemented!() }
+    pub fn new_async() -> (r: Self) ensures r.fresh(), !r.is_sync(), !r.owns_payload() { unimplemented!() }
     #[verifier::external_body]
     pub fn new_async_ptr(ptr: KanalPtr<T>) -> (r: Self)
-        ensures r.fresh(), !r.is_sync(), ptr.has_value() ==> payload(r.term()) == ptr.lent() { unimplemented!() }
+        ensures r.fresh(), !r.is_sync(), ptr.has_value() ==> payload(r.term()) == ptr.lent(), r.owns_payload() == ptr.has_value() { unimplemented!() }
     /// completion is decided from the signal state only
     #[verifier::external_body]
     pub fn poll(&self) -> (r: Poll<bool>)
         ensures r matches Poll::Ready(b) ==> (b == self.delivered()
-            && (b && big::<T>() ==> ptr_filled(self.slot()) && ptr_val(self.slot()) == received(self.term())))
+            && (b && big::<T>() ==> ptr_filled(self.slot()) && ptr_fill_val(self.slot()) == received(self.term())))
     { unimplemented!() }
     #[verifier::external_body]
-    pub fn async_blocking_wait(&self) -> (b: bool)
+    pub fn async_blocking_wait(&self, Tracked(fx): Tracked<&mut Fx<T>>) -> (b: bool)
         requires may_wait_peer(),
-        ensures b == self.delivered(),
-            b && big::<T>() ==> ptr_filled(self.slot()) && ptr_val(self.slot()) == received(self.term()),
+            /*@tag:O-no-wait-under-lock C03 C14 C15 C16*/ !old(fx).held,
+        ensures *final(fx) == *old(fx), b == self.delivered(),
+            b && big::<T>() ==> ptr_filled(self.slot()) && ptr_fill_val(self.slot()) == received(self.term()),
     { unimplemented!() }
     /// re-pointing the slot keeps identity, freshness and registered waker
     #[verifier::external_body]
@@ -285,6 +308,7 @@ impl<T> Signal<T> {
         requires /*@tag:O-setptr-unpublished C16 C15*/ old(self).fresh(),
         ensures final(self).term() == old(self).term(), final(self).fresh(), final(self).is_sync() == old(self).is_sync(),
             final(self).slot() == ptr.slot(), ptr.has_value() ==> payload(final(self).term()) == ptr.lent(),
+            final(self).owns_payload() == ptr.has_value(),
             forall|w: Waker| final(self).wakes(w) == old(self).wakes(w),
     { unimplemented!() }
     /// O-waker-under-lock: the waker of a signal that may already be published is replaced only while
@@ -294,17 +318,19 @@ impl<T> Signal<T> {
         requires /*@tag:O-waker-under-lock C16 C15*/ old(self).fresh() || (old(fx).held && old(fx).cs.len() > 0 && old(fx).cs.last().pre.wait_list@.contains(old(self).term())),
         ensures final(self).wakes(*waker), final(self).term() == old(self).term(), final(self).fresh() == old(self).fresh(),
             final(self).slot() == old(self).slot(), final(self).is_sync() == old(self).is_sync(), *final(fx) == *old(fx),
+            final(self).owns_payload() == old(self).owns_payload(),
     { unimplemented!() }
     #[verifier::external_body]
     pub fn will_wake(&self, waker: &Waker) -> (b: bool) ensures b == self.wakes(*waker) { unimplemented!() }
     /// T8 (sender side, small T): drops the value still stored in the signal
     #[verifier::external_body]
     pub unsafe fn load_and_drop(&self) requires /*@tag:O-size-dispatch C04 C05*/ !big::<T>() { unimplemented!() }
-    /// T8 (receiver side, small T): the value is in the signal itself
+    /// T8 (small T): the value is in the signal itself -- the delivered value of a receiver signal, or the
+    /// value a never-published sender signal still owns
     #[verifier::external_body]
     pub unsafe fn assume_init(&self) -> (r: T)
-        requires self.delivered(), !big::<T>(),
-        ensures r == received(self.term())
+        requires /*@tag:O-evidence-before-read C04 C16 C01*/ self.delivered() || self.owns_payload(), /*@tag:O-size-dispatch C04 C05*/ !big::<T>(),
+        ensures self.owns_payload() ==> r == payload(self.term()), !self.owns_payload() ==> r == received(self.term())
     { unimplemented!() }
 }
 
@@ -316,7 +342,7 @@ impl<T> SignalTerminator<T> {
         ensures final(fx).used == old(fx).used.insert((self, Role::Receiver)), final(fx).sent == old(fx).sent.push((self, data)),
             final(fx).popped == old(fx).popped, final(fx).cs == old(fx).cs, final(fx).taken == old(fx).taken,
             final(fx).terminated == old(fx).terminated, final(fx).held == old(fx).held, final(fx).listed == old(fx).listed,
-            final(fx).local_drops == old(fx).local_drops, final(fx).local_reads == old(fx).local_reads,
+            final(fx).local_drops == old(fx).local_drops, final(fx).local_reads == old(fx).local_reads, final(fx).roles == old(fx).roles,
     { unimplemented!() }
     /// T3
     #[verifier::external_body]
@@ -326,7 +352,7 @@ impl<T> SignalTerminator<T> {
             final(fx).used == old(fx).used.insert((self, Role::Sender)), final(fx).taken == old(fx).taken.push(self),
             final(fx).popped == old(fx).popped, final(fx).cs == old(fx).cs, final(fx).sent == old(fx).sent,
             final(fx).terminated == old(fx).terminated, final(fx).held == old(fx).held, final(fx).listed == old(fx).listed,
-            final(fx).local_drops == old(fx).local_drops, final(fx).local_reads == old(fx).local_reads,
+            final(fx).local_drops == old(fx).local_drops, final(fx).local_reads == old(fx).local_reads, final(fx).roles == old(fx).roles,
     { unimplemented!() }
     /// T4
     #[verifier::external_body]
@@ -334,7 +360,7 @@ impl<T> SignalTerminator<T> {
         ensures final(fx).terminated == old(fx).terminated.push(*self),
             final(fx).popped == old(fx).popped, final(fx).cs == old(fx).cs, final(fx).sent == old(fx).sent,
             final(fx).taken == old(fx).taken, final(fx).used == old(fx).used, final(fx).held == old(fx).held, final(fx).listed == old(fx).listed,
-            final(fx).local_drops == old(fx).local_drops, final(fx).local_reads == old(fx).local_reads,
+            final(fx).local_drops == old(fx).local_drops, final(fx).local_reads == old(fx).local_reads, final(fx).roles == old(fx).roles,
     { unimplemented!() }
     #[verifier::external_body]
     pub fn eq(&self, other: &Signal<T>) -> (r: bool) ensures r == (*self == other.term()) { unimplemented!() }
@@ -358,24 +384,12 @@ impl<F> PinBox<F> {
 pub open spec fn send_fut_value<T>(f: SendFuture<'_, T>) -> T {
     if big::<T>() { f.data.mem_contents().value() } else { payload(f.sig.term()) }
 }
-impl<'a, T> SendFuture<'a, T> {
-    /// T8: bitwise read of the future's own value (core::ptr::read / Signal::assume_init); trusted
-    #[verifier::external_body]
-    pub unsafe fn read_local_data(&self, Tracked(fx): Tracked<&mut Fx<T>>) -> (r: T)
-        requires big::<T>() ==> self.data.mem_contents() is Init,
-        ensures r == send_fut_value(*self), final(fx).local_reads == old(fx).local_reads + 1, final(fx).local_drops == old(fx).local_drops,
-            final(fx).cs == old(fx).cs, final(fx).same_effects_but_local(*old(fx)), final(fx).held == old(fx).held, final(fx).listed == old(fx).listed,
-    { unimplemented!() }
-}
-impl<'a, T> ReceiveFuture<'a, T> {
-    /// T8: reads the delivered value out of the future (requires evidence of delivery)
-    #[verifier::external_body]
-    pub unsafe fn read_local_data(&self, Tracked(fx): Tracked<&mut Fx<T>>) -> (r: T)
-        requires /*@tag:O-evidence-before-read C04 C16 C01*/ self.sig.delivered(),
-        ensures r == received(self.sig.term()), final(fx).local_reads == old(fx).local_reads + 1, final(fx).local_drops == old(fx).local_drops,
-            final(fx).cs == old(fx).cs, final(fx).same_effects_but_local(*old(fx)), final(fx).held == old(fx).held, final(fx).listed == old(fx).listed,
-    { unimplemented!() }
-}
+/// X10 stand-in for `core::ptr::read(m.as_ptr())`: a bitwise read of an initialised MaybeUninit slot (T8)
+#[verifier::external_body]
+pub unsafe fn maybe_uninit_read<T>(m: &MaybeUninit<T>) -> (r: T)
+    requires /*@tag:O-read-init C04 C05 C16*/ m.mem_contents() is Init,
+    ensures r == m.mem_contents().value()
+{ unimplemented!() }
 
 // ------------------------------------------------------------------ T9: clock
 pub uninterp spec fn reached(t: Instant) -> bool;
@@ -409,9 +423,13 @@ pub assume_specification<T: ?Sized> [core::mem::needs_drop::<T>] () -> (b: bool)
 pub assume_specification<T> [core::mem::MaybeUninit::<T>::as_mut_ptr] (_0: &mut core::mem::MaybeUninit<T>) -> (r: *mut T)
     ensures
         ptr_manual(r),
-        old(_0).mem_contents() matches MemContents::Init(v) ==> final(_0).mem_contents() == old(_0).mem_contents() && ptr_val(r) == v,
+        // lending an initialised slot: the peer may read `ptr_val(r)`; if a peer (over)writes it, the slot
+        // ends with what the peer wrote
+        old(_0).mem_contents() matches MemContents::Init(v) ==> ptr_val(r) == v && final(_0).mem_contents() is Init
+            && final(_0).mem_contents().value() == (if ptr_filled(r) { ptr_fill_val(r) } else { v }),
+        // lending an empty slot: it is initialised exactly if a peer fills it, with what the peer wrote
         old(_0).mem_contents() is Uninit ==> ((final(_0).mem_contents() is Init) <==> ptr_filled(r)),
-        old(_0).mem_contents() is Uninit ==> (final(_0).mem_contents() matches MemContents::Init(v) ==> v == ptr_val(r));
+        old(_0).mem_contents() is Uninit ==> (final(_0).mem_contents() matches MemContents::Init(v) ==> v == ptr_fill_val(r));
 pub assume_specification<T> [core::mem::MaybeUninit::<T>::assume_init_drop] (_0: &mut core::mem::MaybeUninit<T>)
     requires old(_0).mem_contents() is Init,
     ensures final(_0).mem_contents() is Uninit;
